@@ -312,6 +312,11 @@ pub fn main() {
             }
         }
     }
+    if args.dump.is_some() {
+        // cases dumped for the Miri stage: small totals, every form equally often
+        let mut seen = std::collections::HashSet::new();
+        g.retain(|c| c.n * c.m <= 16 && c.n <= 6 && c.m <= 6 && matches!(c.kind, Kind::U8 | Kind::U64 | Kind::Tracked | Kind::Al32) && seen.insert((c.kind, c.n, c.m, c.form)));
+    }
     for &(n, m) in HUGE_PAIRS {
         for form in 1..3u8 {
             g.push(Case { kind: Kind::HugeUnit, n, m, form, salt: 0 });
